@@ -470,6 +470,11 @@ func runTHRESH(c *Ctx) {
 	type fs struct {
 		stores map[string][]*ssa.Store
 		local  bool
+		// for a store made by a private helper on the function's behalf (see below): the calls that lead from the
+		// function to the helper holding the store, outermost first (parallel to stores); nil for the function's own
+		vias map[string][][]ssa.CallInstruction
+		// the tree stored into, in the function's own terms (parallel to stores)
+		bases map[string][]ssa.Value
 	}
 	per := map[*ssa.Function]*fs{}
 	for _, fn := range P.Funcs {
@@ -503,13 +508,199 @@ func runTHRESH(c *Ctx) {
 			}
 		}
 	}
+	// A private helper that moves only some of the three fields of the tree it is handed (`m.raiseSizeLimits()`: the two
+	// thresholds, next to grow's own `m.height++`) is not a unit of its own: it is judged where it is called, its stores
+	// counted as stores of the caller made at the call. That is sound only if every use of the helper is such a call (it
+	// is unexported, never used as a value, only called by plain calls of functions analysed here), so that no store of
+	// it goes unjudged; any other partial writer is judged on its own, as before.
+	missingOf := func(s *fs) []string {
+		var missing []string
+		for _, t := range threshFields {
+			if len(s.stores[t]) == 0 {
+				missing = append(missing, t)
+			}
+		}
+		return missing
+	}
+	escapes := threshEscapingFuncs(P)
+	eff := map[*ssa.Function]*fs{}
+	state := map[*ssa.Function]int{}
+	var effOf func(fn *ssa.Function) *fs
+	var partial func(fn *ssa.Function) bool
+	// translate: the tree a helper stores into (in the helper's terms: its receiver/parameter, or a variable its
+	// closure captured) in the terms of the caller
+	translate := func(g *ssa.Function, base ssa.Value, call *ssa.Call) ssa.Value {
+		switch r := ir.ResolveCell(base).(type) {
+		case *ssa.Parameter:
+			for i, prm := range g.Params {
+				if prm == r && i < len(call.Call.Args) && !call.Call.IsInvoke() {
+					return call.Call.Args[i]
+				}
+			}
+		case *ssa.UnOp:
+			fv, isFV := r.X.(*ssa.FreeVar)
+			mc, isMC := call.Call.Value.(*ssa.MakeClosure)
+			if r.Op != token.MUL || !isFV || !isMC {
+				return nil
+			}
+			for i, v := range g.FreeVars {
+				if v == fv && i < len(mc.Bindings) {
+					if cell, isCell := mc.Bindings[i].(*ssa.Alloc); isCell {
+						if st := ir.SingleStore(cell); st != nil {
+							return st.Val
+						}
+					}
+					return mc.Bindings[i]
+				}
+			}
+		case *ssa.FreeVar:
+			if mc, isMC := call.Call.Value.(*ssa.MakeClosure); isMC {
+				for i, v := range g.FreeVars {
+					if v == r && i < len(mc.Bindings) {
+						return mc.Bindings[i]
+					}
+				}
+			}
+		}
+		return nil
+	}
+	newFS := func() *fs {
+		return &fs{stores: map[string][]*ssa.Store{}, vias: map[string][][]ssa.CallInstruction{}, bases: map[string][]ssa.Value{}}
+	}
+	effOf = func(fn *ssa.Function) *fs {
+		if state[fn] == 2 {
+			return eff[fn]
+		}
+		if state[fn] == 1 {
+			return nil // recursion: not a helper of itself
+		}
+		state[fn] = 1
+		var out *fs
+		if own := per[fn]; own != nil {
+			out = newFS()
+			out.local = own.local
+			for _, t := range threshFields {
+				for _, st := range own.stores[t] {
+					out.stores[t] = append(out.stores[t], st)
+					out.vias[t] = append(out.vias[t], nil)
+					out.bases[t] = append(out.bases[t], st.Addr.(*ssa.FieldAddr).X)
+				}
+			}
+		}
+		for _, b := range fn.Blocks {
+			for _, ins := range b.Instrs {
+				call, isCall := ins.(*ssa.Call)
+				if !isCall {
+					continue
+				}
+				g := ir.Callee(call.Call)
+				if g == nil || g == fn || g.Blocks == nil || !isOwn(P, g) || !partial(g) {
+					continue
+				}
+				ge := eff[g]
+				if out == nil {
+					out = newFS()
+				}
+				for _, t := range threshFields {
+					for i, st := range ge.stores[t] {
+						tb := translate(g, ge.bases[t][i], call)
+						out.stores[t] = append(out.stores[t], st)
+						out.vias[t] = append(out.vias[t], append([]ssa.CallInstruction{call}, ge.vias[t][i]...))
+						out.bases[t] = append(out.bases[t], tb)
+						if _, local := ir.ResolveCell(tb).(*ssa.Alloc); local {
+							out.local = true
+						}
+					}
+				}
+			}
+		}
+		state[fn] = 2
+		eff[fn] = out
+		return out
+	}
+	partial = func(g *ssa.Function) bool {
+		e := effOf(g)
+		if e == nil || e.local || len(missingOf(e)) == 0 || escapes[g] {
+			return false
+		}
+		if o := g.Object(); o != nil && o.Exported() {
+			return false
+		}
+		callers := P.Callers[g]
+		if len(callers) == 0 {
+			return false
+		}
+		for _, cs := range callers {
+			call, plain := cs.(*ssa.Call)
+			if !plain || call.Parent() == g {
+				return false
+			}
+			// the caller (itself, or through another helper it calls) moves one of the fields this one leaves alone: the
+			// two are parts of one update. A caller that adds nothing (Insert calling grow) is not what the partial writer
+			// is a helper of; the writer is then judged, and reported, on its own
+			complements := false
+			has := func(f *ssa.Function) {
+				if own := per[f]; own != nil {
+					for _, t := range missingOf(e) {
+						if len(own.stores[t]) > 0 {
+							complements = true
+						}
+					}
+				}
+			}
+			has(call.Parent())
+			for _, b := range call.Parent().Blocks {
+				for _, ins := range b.Instrs {
+					if oc, isC := ins.(*ssa.Call); isC {
+						if h := ir.Callee(oc.Call); h != nil && h != g && h != call.Parent() {
+							has(h)
+						}
+					}
+				}
+			}
+			if !complements {
+				return false
+			}
+			for _, t := range threshFields {
+				for _, bv := range e.bases[t] {
+					if bv == nil || translate(g, bv, call) == nil {
+						return false
+					}
+				}
+			}
+		}
+		return true
+	}
 	var fns []*ssa.Function
-	for fn := range per {
-		fns = append(fns, fn)
+	for _, fn := range P.Funcs {
+		if o := fn.Object(); o != nil {
+			if tf, isF := o.(*types.Func); isF && ir.InlinedSetters[tf.FullName()] {
+				continue
+			}
+		}
+		if e := effOf(fn); e != nil && !partial(fn) {
+			fns = append(fns, fn)
+		}
+	}
+	// the order in which two stores happen, each given with the calls leading to it
+	seqOf := func(via []ssa.CallInstruction, last ssa.Instruction) []ssa.Instruction {
+		var out []ssa.Instruction
+		for _, cs := range via {
+			out = append(out, cs)
+		}
+		return append(out, last)
+	}
+	seqBefore := func(a, b []ssa.Instruction) bool {
+		for i := 0; i < len(a) && i < len(b); i++ {
+			if a[i] != b[i] {
+				return ir.Before(a[i], b[i])
+			}
+		}
+		return false
 	}
 	sort.Slice(fns, func(i, j int) bool { return ir.PosLess(fns[i].Pos(), fns[j].Pos()) })
 	for _, fn := range fns {
-		s := per[fn]
+		s := eff[fn]
 		pos := P.Pos(fn.Pos())
 		var missing []string
 		for _, t := range threshFields {
@@ -527,8 +718,36 @@ func runTHRESH(c *Ctx) {
 				"height and the two size thresholds must change together (thresholds are bf^height and bf^(height+1)); a tree whose thresholds drift from its height grows/shrinks at the wrong sizes and no longer has the canonical shape")
 			continue
 		}
+		// stores made through helpers: all into one tree, and none of them made twice
+		if helped, why := false, ""; true {
+			var first ssa.Value
+			for _, t := range threshFields {
+				for i := range s.stores[t] {
+					if s.vias[t][i] != nil {
+						helped = true
+					}
+					bv := ir.ResolveCell(s.bases[t][i])
+					if first == nil {
+						first = bv
+					} else if bv != first && ir.Sym(bv) != ir.Sym(first) {
+						why = "the stores into " + t + " and " + threshFields[0] + " are made into different trees"
+					}
+					for j := 0; j < i; j++ {
+						a, b := seqOf(s.vias[t][j], s.stores[t][j]), seqOf(s.vias[t][i], s.stores[t][i])
+						if (s.vias[t][i] != nil || s.vias[t][j] != nil) && (seqBefore(a, b) || seqBefore(b, a)) {
+							why = t + " is moved twice (the helper that moves it is called where it was already moved)"
+						}
+					}
+				}
+			}
+			if helped && why != "" {
+				c.Violation(fn, pos, "threshold update has the wrong shape", why)
+				continue
+			}
+		}
 		// shapes
 		hs := s.stores["height"][0]
+		hsVia, gsVia, ssVia := s.vias["height"][0], s.vias["growAfterSize"][0], s.vias["shrinkBelowSize"][0]
 		hb, okH := hs.Val.(*ssa.BinOp)
 		dir := 0
 		if okH && mastFieldLoad(hb.X, "height") {
@@ -570,7 +789,7 @@ func runTHRESH(c *Ctx) {
 			}
 			if !mastFieldLoad(ss.Val, "growAfterSize") {
 				ok, why = false, "shrinkBelowSize is not set to the previous growAfterSize"
-			} else if ld, isLd := ss.Val.(*ssa.UnOp); isLd && !ir.Before(ld, gs) {
+			} else if ld, isLd := ss.Val.(*ssa.UnOp); isLd && !seqBefore(seqOf(ssVia, ld), seqOf(gsVia, gs)) {
 				ok, why = false, "shrinkBelowSize reads growAfterSize after it was already multiplied"
 			}
 		} else {
@@ -596,7 +815,33 @@ func runTHRESH(c *Ctx) {
 				}
 				return m
 			}
-			hf := factsOf(hs.Block())
+			// a store made by a helper happens under what holds at the call (in this function's terms) and under what
+			// the helper tests on its way to the store (in the helper's terms: only the threshold's own guard is admissible)
+			outerBlock := func(via []ssa.CallInstruction, st *ssa.Store) *ssa.BasicBlock {
+				if len(via) > 0 {
+					return via[0].Block()
+				}
+				return st.Block()
+			}
+			innerFacts := func(via []ssa.CallInstruction, st *ssa.Store) map[fk]ssa.Value {
+				m := map[fk]ssa.Value{}
+				for i := range via {
+					var b *ssa.BasicBlock
+					if i+1 < len(via) {
+						b = via[i+1].Block()
+					} else {
+						b = st.Block()
+					}
+					for k, v := range factsOf(b) {
+						m[k] = v
+					}
+				}
+				return m
+			}
+			hf := factsOf(outerBlock(hsVia, hs))
+			for k := range innerFacts(hsVia, hs) {
+				ok, why = false, "the height change is conditioned on "+pathDesc(k.cond)+" inside the helper that makes it, which the threshold update is not"
+			}
 			// the only admissible extra condition: "the threshold is still above 1" (dividing 1 would give 0)
 			selfGuard := func(cond ssa.Value, truth bool) bool {
 				bin, isBin := cond.(*ssa.BinOp)
@@ -644,8 +889,14 @@ func runTHRESH(c *Ctx) {
 				// are powers of the branch factor, so > 0, ≥ 1, > 1, ≥ 2, ≠ 0 and ≠ 1 all agree where it matters
 				return (op == token.GTR && (k == 0 || k == 1)) || (op == token.GEQ && (k == 1 || k == 2)) || (op == token.NEQ && (k == 0 || k == 1))
 			}
-			for _, st := range []*ssa.Store{gs, ss} {
-				tf := factsOf(st.Block())
+			for si, st := range []*ssa.Store{gs, ss} {
+				stVia := [][]ssa.CallInstruction{gsVia, ssVia}[si]
+				tf := factsOf(outerBlock(stVia, st))
+				for k, cond := range innerFacts(stVia, st) {
+					if !selfGuard(cond, k.truth) {
+						ok, why = false, "the threshold update is conditioned on "+pathDesc(k.cond)+" inside the helper that makes it, which the height change is not"
+					}
+				}
 				for k, cond := range tf {
 					if _, same := hf[k]; !same && !selfGuard(cond, k.truth) {
 						ok, why = false, "the threshold update is conditioned on "+pathDesc(k.cond)+", which the height change is not: on the other branch height moves and the thresholds stay"
@@ -1185,4 +1436,65 @@ func sameCall(a, b ssa.Value) bool {
 		return nil
 	}
 	return ca(a) != nil && ca(a) == ca(b)
+}
+
+// threshEscapingFuncs: the functions of the repository that are used other than by being called directly (stored,
+// passed, bound as a method value, deferred through a variable): their call sites are not all known.
+func threshEscapingFuncs(P *ir.Program) map[*ssa.Function]bool {
+	out := map[*ssa.Function]bool{}
+	bound := map[types.Object]bool{}
+	var ops []*ssa.Value
+	for _, fn := range P.Funcs {
+		for _, b := range fn.Blocks {
+			for _, ins := range b.Instrs {
+				ci, isCall := ins.(ssa.CallInstruction)
+				mc, isMC := ins.(*ssa.MakeClosure)
+				ops = ins.Operands(ops[:0])
+				for _, op := range ops {
+					if op == nil || *op == nil {
+						continue
+					}
+					f, isF := (*op).(*ssa.Function)
+					if !isF {
+						continue
+					}
+					switch {
+					case isCall && op == &ci.Common().Value:
+						// called
+					case isMC && op == &mc.Fn:
+						if f.Synthetic != "" && f.Object() != nil {
+							bound[f.Object()] = true // m.helper as a value
+						}
+						if mc.Referrers() == nil {
+							out[f] = true
+							break
+						}
+						for _, r := range *mc.Referrers() {
+							if _, isDbg := r.(*ssa.DebugRef); isDbg {
+								continue
+							}
+							rc, isC := r.(ssa.CallInstruction)
+							if !isC || rc.Common().Value != ssa.Value(mc) {
+								out[f] = true
+								continue
+							}
+							for _, a := range rc.Common().Args {
+								if a == ssa.Value(mc) {
+									out[f] = true
+								}
+							}
+						}
+					default:
+						out[f] = true
+					}
+				}
+			}
+		}
+	}
+	for _, fn := range P.Funcs {
+		if o := fn.Object(); o != nil && bound[o] {
+			out[fn] = true
+		}
+	}
+	return out
 }
